@@ -28,10 +28,11 @@ type c05Case struct {
 	Valid        int // 0 absent, 1 names this replica set, 2 names another
 	Failed       bool
 	ActiveExists bool
+	StatusCanary int // status.canary.replicaSet before the reconcile: 0 unset, 1 the matching set, 2 another (stale) name
 }
 
 func (k c05Case) String() string {
-	return fmt.Sprintf("strategy=%d age=%d noRestarts=%d lastRestart=%d pause=%d unpaused=%v valid=%d failed=%v activeExists=%v", k.Strategy, k.AgeVsDur, k.NoRestarts, k.LastRestart, k.Pause, k.Unpaused, k.Valid, k.Failed, k.ActiveExists)
+	return fmt.Sprintf("strategy=%d age=%d noRestarts=%d lastRestart=%d pause=%d unpaused=%v valid=%d failed=%v activeExists=%v statusCanary=%d", k.Strategy, k.AgeVsDur, k.NoRestarts, k.LastRestart, k.Pause, k.Unpaused, k.Valid, k.Failed, k.ActiveExists, k.StatusCanary)
 }
 
 const c05Duration = 2 * time.Minute
@@ -133,6 +134,15 @@ func runC05(k c05Case) (vs []mon.V, nontrivial bool, err error) {
 			x.Annotations[oracle.AnnCanaryValid] = "foo-someother"
 		}
 	})
+	if k.StatusCanary != 0 && k.Strategy != 0 {
+		c.MutateEDS("ns1", "foo", func(x *edsv1.ExtendedDaemonSet) {
+			name := target
+			if k.StatusCanary == 2 {
+				name = "foo-someother" // a previous canary that the template change superseded
+			}
+			x.Status.Canary = &edsv1.ExtendedDaemonSetStatusCanary{ReplicaSet: name, Nodes: []string{"n0"}}
+		})
+	}
 	if !k.ActiveExists {
 		c.DeleteERS("ns1", active)
 	}
@@ -158,6 +168,7 @@ func c05Draw(rt *rapid.T) c05Case {
 		NoRestarts: rapid.IntRange(0, 2).Draw(rt, "noRestarts"), LastRestart: rapid.IntRange(0, 3).Draw(rt, "lastRestart"),
 		Pause: rapid.IntRange(0, 2).Draw(rt, "pause"), Unpaused: rapid.Bool().Draw(rt, "unpaused"), Valid: rapid.IntRange(0, 2).Draw(rt, "valid"),
 		Failed: rapid.Bool().Draw(rt, "failed"), ActiveExists: rapid.IntRange(0, 3).Draw(rt, "activeExists") != 0,
+		StatusCanary: rapid.IntRange(0, 2).Draw(rt, "statusCanary"),
 	}
 }
 
@@ -169,7 +180,7 @@ func c05Report(rec *evid.Rec, k c05Case, vs []mon.V) {
 
 // TestC05Lattice samples the promotion lattice (quick) ...
 func TestC05Lattice(t *testing.T) {
-	rec := evid.New("TestC05Lattice", "C05", "point of the promotion lattice {strategy absent/auto/manual} x {age vs duration: -1s, 0, +1s, >>} x {noRestartsDuration default/0/1m} x {last restart none/old/at the limit/recent} x {pause none/annotation/condition} x unpaused x {canary-valid absent/this/other} x failed x {recorded active set exists or not}, then one EDS reconcile judged by the promotion rule; non-trivial = canary strategy present and the active set exists (the rule, not a shortcut, decides); distinct by lattice point")
+	rec := evid.New("TestC05Lattice", "C05", "point of the promotion lattice {strategy absent/auto/manual} x {age vs duration: -1s, 0, +1s, >>} x {noRestartsDuration default/0/1m} x {last restart none/old/at the limit/recent} x {pause none/annotation/condition} x unpaused x {canary-valid absent/this/other} x failed x {recorded active set exists or not} x {status.canary unset / names the matching set / names a superseded one}, then one EDS reconcile judged by the promotion rule; non-trivial = canary strategy present and the active set exists (the rule, not a shortcut, decides); distinct by lattice point")
 	t.Cleanup(func() {
 		if !t.Failed() {
 			rec.Done()
@@ -195,7 +206,7 @@ func TestC05Lattice(t *testing.T) {
 
 // ... and TestC05Exhaustive enumerates it completely (thorough; sharded by the driver).
 func TestC05Exhaustive(t *testing.T) {
-	rec := evid.New("TestC05Exhaustive", "C05", "complete enumeration of the promotion lattice (10368 points), one EDS reconcile each; non-trivial = canary strategy present and the active set exists")
+	rec := evid.New("TestC05Exhaustive", "C05", "complete enumeration of the promotion lattice (24192 points, incl. the recorded status.canary: unset / the matching set / a stale other name), one EDS reconcile each; non-trivial = canary strategy present and the active set exists")
 	shard, shards := envInt("VERIF_SHARD", 0), envInt("VERIF_SHARDS", 1)
 	i := 0
 	failed := false
@@ -208,26 +219,31 @@ func TestC05Exhaustive(t *testing.T) {
 							for v := 0; v < 3; v++ {
 								for _, f := range []bool{false, true} {
 									for _, ae := range []bool{true, false} {
-										i++
-										if i%shards != shard {
-											continue
-										}
-										k := c05Case{s, a, nr, lr, pz, up, v, f, ae}
-										vs, nt, err := runC05(k)
-										if err != nil {
-											t.Fatalf("%v", err)
-										}
-										rec.Case(nt, evid.FP(k.String()))
-										rec.Steps(1)
-										if nt {
-											rec.Sample(k)
-										}
-										if len(vs) > 0 {
-											c05Report(rec, k, vs)
-											if !failed {
-												t.Errorf("%s\ncase: %s", vs[0], k)
+										for sc := 0; sc < 3; sc++ {
+											if s == 0 && sc != 0 {
+												continue
 											}
-											failed = true
+											i++
+											if i%shards != shard {
+												continue
+											}
+											k := c05Case{s, a, nr, lr, pz, up, v, f, ae, sc}
+											vs, nt, err := runC05(k)
+											if err != nil {
+												t.Fatalf("%v", err)
+											}
+											rec.Case(nt, evid.FP(k.String()))
+											rec.Steps(1)
+											if nt {
+												rec.Sample(k)
+											}
+											if len(vs) > 0 {
+												c05Report(rec, k, vs)
+												if !failed {
+													t.Errorf("%s\ncase: %s", vs[0], k)
+												}
+												failed = true
+											}
 										}
 									}
 								}
